@@ -1,0 +1,21 @@
+//go:build verif
+
+package expectations
+
+import "sort"
+
+// VerifKeys returns the controller keys currently present in the process-wide resource expectations (verification hook).
+func VerifKeys() []string {
+	r, ok := ResourceExpectations.(*realResourceExpectations)
+	if !ok {
+		return nil
+	}
+	r.Lock()
+	defer r.Unlock()
+	keys := make([]string, 0, len(r.controllerCache))
+	for k := range r.controllerCache {
+		keys = append(keys, k)
+	}
+	sort.Strings(keys)
+	return keys
+}
